@@ -1,7 +1,7 @@
 //@ tu: libxcm/tp/tcp/tconnect.c
 //@ enforce-rec: track_connect_next
 //@ replace: tcp_opts_effectuate tp_ip_to_sockaddr xpoll_fd_reg_add timer_mgr_schedule track_abort_connect
-//@ pre-unwind: track_connect_next.2:34 strlen.0:2
+//@ pre-unwind: track_connect_next.2:34
 //@ timeout: 600
 //@ flags: --object-bits 10
 //@ props: C13 C08 C04
